@@ -499,3 +499,19 @@ Proof.
   intros Hd. unfold decode_utp_content. change (1 =? 1) with true. cbv iota.
   rewrite decode_single_encode by assumption. reflexivity.
 Qed.
+
+(* joining what was split out of a joined stream gives the stream again, however often it is done
+   (the gossip path offers received contents on to several peers) *)
+Lemma rejoin_split_stream : forall (l : list bytes) k,
+  Forall short l ->
+  match decode_contents (encode_contents l) with
+  | Ok l' => Nat.iter k (fun s => match decode_contents s with Ok x => encode_contents x | _ => s end) (encode_contents l') = encode_contents l
+  | _ => False
+  end.
+Proof.
+  intros l k Hl. rewrite (decode_encode_contents l Hl).
+  induction k as [|k IH]; [reflexivity|].
+  change (Nat.iter (S k) ?f ?x) with (f (Nat.iter k f x)).
+  match goal with |- ?f (Nat.iter k ?g ?x) = _ => change (f (Nat.iter k g x)) with (match decode_contents (Nat.iter k g x) with Ok y => encode_contents y | _ => Nat.iter k g x end) end.
+  rewrite IH, (decode_encode_contents l Hl). reflexivity.
+Qed.
